@@ -271,3 +271,47 @@ MUTANTS += [
     y_pred = y_score.argmax(axis=1)
     return metrics.balanced_accuracy_score("""),
 ]
+# ---- semantics-preserving refactors (expect="clean"): the checks must stay green -- guards against brittle contracts
+MUTANTS += [
+    dict(prop="C12", name="refactor: conditional expressions instead of max/min", file=GO, expect="clean",
+         old="    start = max(start1, start2)\n    stop = min(stop1, stop2)", new="    start = start1 if start1 > start2 else start2\n    stop = stop1 if stop1 < stop2 else stop2"),
+    dict(prop="C12", name="refactor: early return for the absolute threshold", file=GO, expect="clean",
+         old="    overlap = 0\n    if min_absolute_overlap is not None:\n        overlap = min_absolute_overlap\n", new="    overlap = 0\n    if min_absolute_overlap is not None:\n        return stop - start >= min_absolute_overlap\n"),
+    dict(prop="C19", name="refactor: encode with an explicit membership test", file="evaluation/encoding.py", expect="clean",
+         old="        return self._mapping.get((tag.term, tag.value))", new="        key = (tag.term, tag.value)\n        if key in self._mapping:\n            return self._mapping[key]\n        return None"),
+    dict(prop="C18", name="refactor: audio_dir read into a local", file="io/aoef/recording.py", expect="clean",
+         old="        path = obj.path\n        if self.audio_dir is not None:\n            path = Path(obj.path).relative_to(self.audio_dir)", new="        audio_dir = self.audio_dir\n        path = obj.path\n        if audio_dir is not None:\n            path = Path(path).relative_to(audio_dir)"),
+    dict(prop="C14", name="refactor: loop body computes the end after the start test", file="operations.py", expect="clean",
+         old="        start_time = clip.start_time + i * hop\n        end_time = start_time + duration\n\n        if start_time >= clip.end_time:\n            break\n", new="        start_time = clip.start_time + i * hop\n        if start_time >= clip.end_time:\n            break\n        end_time = start_time + duration\n"),
+    dict(prop="C14", name="refactor: hop default via conditional expression", file="operations.py", expect="clean",
+         old="    if hop is None:\n        hop = duration\n", new="    hop = duration if hop is None else hop\n"),
+    dict(prop="C08", name="refactor: pairs built with += instead of extend", file=SED, expect="clean",
+         old="    pairs.extend(\n        (prediction, None, 0.0)\n        for prediction in clip_predictions.sound_events\n        if not prediction.sound_event.geometry\n    )", new="    pairs += [\n        (prediction, None, 0.0)\n        for prediction in clip_predictions.sound_events\n        if not prediction.sound_event.geometry\n    ]"),
+    dict(prop="C09", name="refactor: none index computed once in accuracy", file=MET, expect="clean",
+         old="""def accuracy(
+    y_true: Sequence[Optional[int]],
+    y_score: np.ndarray,
+) -> float:
+    num_classes = y_score.shape[1]
+    y_true_array = np.array(
+        [y if y is not None else num_classes for y in y_true]
+    )""", new="""def accuracy(
+    y_true: Sequence[Optional[int]],
+    y_score: np.ndarray,
+) -> float:
+    none_index = y_score.shape[1]
+    y_true_array = np.array(
+        [none_index if y is None else y for y in y_true]
+    )"""),
+    dict(prop="C02", name="refactor: to_aoef stores then returns the local", file=AD, expect="clean",
+         old="        if obj_id not in self._aoef_store:\n            aoef_obj = self.assemble_aoef(obj, obj_id)\n            self._aoef_store[obj_id] = aoef_obj\n", new="        if obj_id not in self._aoef_store:\n            self._aoef_store[obj_id] = self.assemble_aoef(obj, obj_id)\n"),
+    dict(prop="C16", name="refactor: clamp branch written with elif", file="arrays/dimensions.py", expect="clean",
+         old="        return arr.sizes[dim]", new="        size = arr.sizes[dim]\n        return size"),
+]
+MUTANTS += [
+    dict(prop="C09", name="refactor: run metrics table as a list with a named term", file="evaluation/tasks/clip_classification.py", expect="clean",
+         old="RUN_METRICS = (\n    (terms.balanced_accuracy, metrics.balanced_accuracy),\n    (terms.accuracy, metrics.accuracy),\n    (terms.top_3_accuracy, metrics.top_3_accuracy),\n)",
+         new="_ACCURACY = terms.accuracy\nRUN_METRICS = [\n    (terms.balanced_accuracy, metrics.balanced_accuracy),\n    (_ACCURACY, metrics.accuracy),\n    (terms.top_3_accuracy, metrics.top_3_accuracy),\n]"),
+    dict(prop="C01", name="refactor: sequence parent read into a local", file="io/aoef/sequence.py", expect="clean",
+         old="        if obj.parent:\n            parent = self.to_aoef(obj.parent).uuid", new="        parent_sequence = obj.parent\n        if parent_sequence:\n            parent = self.to_aoef(parent_sequence).uuid"),
+]
